@@ -242,8 +242,17 @@ def check_span(case, ctx):
     scale = max(abs(x) for x in path_states) + 1
     ctx.label('max-before-min' if before else 'max-after-min', 'with-ts' if any(t is not None for t in tsp) else 'no-ts')
     ctx.nontrivial(before or any(t is not None for t in tsp))
-    got = Reactions(reactions=rxns).get_E_span(units=u, T=T)
+    given = list(rxns)
+    seq_obj = Reactions(reactions=given)
+    got = seq_obj.get_E_span(units=u, T=T)
     ctx.close('C19.span/Reactions.get_E_span', got, expect, rtol=1e-11, atol=1e-11 * scale)
+    # the sequence object is the sequence it was built from: later edits of the caller's list do not reach it
+    given.append(given[0])
+    given.reverse()
+    ctx.close('C19.span/Reactions.get_E_span:after-caller-edits-its-list', seq_obj.get_E_span(units=u, T=T), got, rtol=0)
+    if len(seq_obj.reactions) != len(rxns):
+        ctx.fail('C19.span/sequence-follows-callers-list', '%d steps given, %d held after the caller appended to its list' % (
+            len(rxns), len(seq_obj.reactions)))
     net = Network(reactions=rxns)
     path = [state_to_set([sp[0]], [cf])]
     for k in range(len(rxns)):
